@@ -207,6 +207,39 @@ def cache_history(spec, res):
         shutil.rmtree(tmp, ignore_errors=True)
 
 
+def faulted_run(case, res):
+    """a later stage (the MCS search) fails for every second batch: whatever rows and statistics come back must
+    still agree with each other (the counts describe the returned rows, not rows that were given up)"""
+    cfg = dict(case.get("cfg") or {})
+    cfg["batch_size"] = cfg.get("batch_size") or 4
+    b, tr = rowlib.balancer(cfg.get("threshold", 0), 1, True)
+    orig = b.mcs_search.find
+    n = {"k": 0}
+
+    def find(reactions):
+        n["k"] += 1
+        if n["k"] % 2 == 0:
+            raise TimeoutError("injected failure in the MCS search stage")
+        return orig(reactions)
+
+    b.mcs_search.find = find
+    try:
+        out = rowlib.run_case(dict(case, cfg=cfg))
+    finally:
+        del b.mcs_search.find
+    res.count("faulted_runs")
+    rows = out["rows"]
+    if not rows or out["err"]:
+        return
+    # judged against the rows that came back (a batch that was given up is C05's business, not C18's)
+    inputs = [r.get("input_reaction") for r in rows]
+    if not all(isinstance(i, str) for i in inputs):
+        return
+    res.count("faulted_runs_judged")
+    relations(inputs, rows, out["stats"], None, cfg.get("threshold", 0), res, "api_after_fault",
+              dict(cfg=cfg, inputs=case["inputs"], fault="mcs_search.find raises in every second batch"))
+
+
 def work(shard, res, tier, seed):
     if "replay" in shard:
         v = shard["replay"]
@@ -223,6 +256,8 @@ def work(shard, res, tier, seed):
         cache_history(shard.get("cache_history") or shard["replay"]["cache_history"], res)
         return
     for ci, case in enumerate(shard["cases"]):
+        if ci % 4 == 2 and len(case["inputs"]) >= 6:
+            faulted_run(case, res)
         out = rowlib.run_case(case)
         judge(case, out, res)
         # thresholds equal to / next to the confidences this very batch produced
@@ -242,4 +277,4 @@ def work(shard, res, tier, seed):
 
 
 def conclude_args(res, tier, seed):
-    return {"need": {"runs": 20, "cli_runs": 1, "threshold_probe_runs": 5, "cache_history_runs": 2}, "min_cases": 10}
+    return {"need": {"runs": 20, "cli_runs": 1, "threshold_probe_runs": 5, "cache_history_runs": 2, "faulted_runs": 3}, "min_cases": 10}
